@@ -15,29 +15,31 @@ from .. import codec, env, inputs, par, sgzfile, tlc, writers
 
 FINISH = dict(
     level='model_checking',
-    rule='cubes 5x4, 6x9 (and 9x33 with arrays beyond one 512-byte stride); windows = all 0 <= a < b <= NI, 0 <= c < d <= NX (quick: seeded '
+    rule='cubes 5x4, 6x9, a crossline-sorted 5x7 (and 9x33 with arrays beyond one 512-byte stride); windows = all 0 <= a < b <= NI, 0 <= c < d <= NX (quick: seeded '
          'sample always including every window with a = 0 or c = 0 boundary class) x reduce_iops on/off x detection mode; non-trivial = distinct '
          '(cube, window, reader, mode)',
     assumptions=['the comparison file is the library\'s own conversion of a SEG-Y holding exactly the windowed traces'],
     trusted=['zfpy', 'numpy', 'segyio', 'TLC'])
 
 
-def headers_for(ni, nx):
+def headers_for(ni, nx, sorting='il'):
     H = {}
-    t = np.arange(ni * nx).reshape(ni, nx)
+    t = np.arange(ni * nx).reshape(ni, nx)          # t = the trace's ordinal in the source FILE
+    if sorting == 'xl':
+        t = np.arange(ni * nx).reshape(nx, ni).T
     H[segyio.TraceField.CDP] = 7 * t + 3
     H[segyio.TraceField.FieldRecord] = 20000 + t * t
     H[segyio.TraceField.SourceX] = -5 * t - 1
     return H
 
 
-def _prepare(d, k, shape, seed):
+def _prepare(d, k, shape, seed, sorting='il'):
     ni, nx, nz = shape
     cube = inputs.cube(shape, seed + k)
     il = 100 + 2 * np.arange(ni)
     xl = -7 + 3 * np.arange(nx)
     sgy = os.path.join(d, f'src{k}.sgy')
-    inputs.write_segy(sgy, cube, il, xl, np.arange(nz) * 4.0, headers=headers_for(ni, nx))
+    inputs.write_segy(sgy, cube, il, xl, np.arange(nz) * 4.0, headers=headers_for(ni, nx, sorting), sorting=sorting)
     return sgy, cube, il, xl
 
 
@@ -130,14 +132,18 @@ def sources(run):
     keys = sgzfile.trace_keys()
     S = []
     for k, shape in enumerate(SHAPES):
-        sgy, cube, il, xl = _prepare(d, k, shape, run.seed)
+        sgy, cube, il, xl = _prepare(d, k, shape, run.seed, SORTING[k])
         with segyio.open(sgy, strict=False) as s:
             truth = [[int(s.header[i][kk]) for kk in keys] for i in range(s.tracecount)]
+        if SORTING[k] == 'xl':       # truth[i * nx + x] = the header of the source trace AT (i, x), wherever it is in the file
+            ni, nx = shape[:2]
+            truth = [truth[x * ni + i] for i in range(ni) for x in range(nx)]
         S.append({'sgy': sgy, 'cube': cube, 'il': il, 'xl': xl, 'shape': shape, 'truth': truth})
     return S
 
 
-SHAPES = [(5, 4, 10), (6, 9, 7), (9, 33, 5)]
+SHAPES = [(5, 4, 10), (6, 9, 7), (9, 33, 5), (5, 7, 6)]
+SORTING = ['il', 'il', 'il', 'xl']          # the last source is crossline sorted
 
 
 def plan(run):
@@ -160,7 +166,7 @@ def plan(run):
 
 
 def judge(run, c, r, ev):
-    case = dict(c, shape=list(SHAPES[c['src']]))
+    case = dict(c, shape=list(SHAPES[c['src']]), sorting=SORTING[c['src']])
     a, b, cc, dd = c['w']
     run.case(case, nontrivial=True)
     if isinstance(r, par.Crash) or 'error' in r:
@@ -188,7 +194,7 @@ def run(run):
     run.mc('MC_Ingest', f'MC_Ingest_win_{run.tier}', timeout=3000)
     cases = plan(run)
     par.G['sources'] = sources(run)
-    items = [{'op': 'win', 'NI': SHAPES[c['src']][0], 'NX': SHAPES[c['src']][1], 'w': c['w'], 'narr': 1} for c in cases]
+    items = [{'op': 'win', 'NI': SHAPES[c['src']][0], 'NX': SHAPES[c['src']][1], 'w': c['w'], 'narr': 1, 'srt': SORTING[c['src']]} for c in cases]
     out = tlc.oracle('Gen_Ingest', {'items': items}, key='items', timeout=1800)
     run.add_tlc({'distinct': 0, 'generated': out['_tlc']['generated'], 'wall_s': out['_tlc']['wall_s']}, 'Gen_Ingest(win)')
     res = par.pmap(_worker, list(enumerate(cases)), chunksize=2)
@@ -197,6 +203,6 @@ def run(run):
 
 
 def replay(run, rep):
-    c = {k: v for k, v in rep['case'].items() if k != 'shape'}
+    c = {k: v for k, v in rep['case'].items() if k not in ('shape', 'sorting')}
     par.G['sources'] = sources(run)
     judge(run, c, _worker((0, c)), None)
